@@ -114,7 +114,7 @@ Proof.
   intros Hkt Hct G1 G2. unfold nbr_row, row_rel.
   destruct (neighborhood N s row orc) as [[|i idx]|]; [| |exact I].
   - destruct p.
-    + destruct (draw_z RG (create RG seed) (RqChoice (length (n_arms s)) (n_nnprob s))) as [v g']. auto.
+    + destruct (negb (nnprob_len_ok s)); [exact I|]. destruct (draw_z RG (create RG seed) (RqChoice (length (n_arms s)) (n_nnprob s))) as [v g']. auto.
     + auto.
   - set (ds := flat_map (fun o => match o with Some a => [a] | None => [] end) (map (fun i0 => nth_error (n_ds s) i0) (i :: idx))).
     set (rs := select (n_rs s) (zero N) (i :: idx)).
